@@ -334,7 +334,7 @@ class Mitochondria:
             pathway = self._detect_pathway(expression)
 
         if not self.silent:
-            print(f"⚡ [Mitochondria] Metabolizing: {expression[:50]}...")
+            print(f"⚡ [Mitochondria] Metabolizing: {expression[:50]!r}...")
 
         try:
             if pathway == MetabolicPathway.GLYCOLYSIS:
